@@ -249,8 +249,7 @@ def check(prop, tier="quick", base_seed=None, workers=None, n_override=None, wal
     aborted = [r for r in results if r.get("aborted")]
     wall = time.time() - t_start
     ev = build_evidence(prop, tier, base_seed, driver, results, extra, n_viol, wall, harness_errors, aborted, n)
-    ev["coverage"]["corpus_replays"] = corpus_n
-    ev["coverage"]["corpus_replays_reproduced"] = corpus_hit
+    ev["coverage"]["corpus"] = {"replays_of_repaired_findings_rerun": corpus_n, "reproduced": corpus_hit}
     os.makedirs(os.path.join(OUT, "evidence"), exist_ok=True)
     with open(os.path.join(OUT, "evidence", f"{prop}.json"), "w") as f:
         json.dump(ev, f, indent=1, sort_keys=True, default=str)
@@ -386,8 +385,7 @@ def build_evidence(prop, tier, base_seed, driver, results, extra, n_viol, wall, 
         "abstract_state_measure": "hash of (sorted multiset of (activity, has route) per vehicle, occupancy of every plug/queue/stall, #waiting requests capped at 5, #assigned requests capped at 3)",
         "distinct_transition_signatures": len(sigs),
         "transition_signature_measure": "(activity before, instruction kind, accepted|rejected)",
-        "aborted_runs": len(aborted),
-        "harness_errors": len(harness_errors),
+        "run_health": {"runs_aborted_by_an_exception_escaping_hive": len(aborted), "harness_errors": len(harness_errors)},
         "components": COMPONENTS,
         "exhaustive": False,
     }
